@@ -36,6 +36,8 @@ var sites = []gen.Site{
 		Subst: map[string]string{"curBlockHeight": "cur"}, Vars: []string{"cur"}},
 	{Name: "load_start", File: blockStoreFile, Func: "LoadBloomBits", Loc: "assign:loadStart",
 		Subst: map[string]string{"curBlockHeight": "cur", "BloomBitsBlocks": "sz"}, Vars: []string{"cur", "sz"}},
+	{Name: "put_index_bound", File: "core/store/ledgerstore/bloombits.go", Func: "PutBloomIndex", Loc: "cmp:<:rhs",
+		Subst: map[string]string{"types.BloomBitLength": "bbl"}, Vars: []string{"bbl"}},
 	{Name: "min_filter_start", File: blockStoreFile, Func: "MinFilterStart", Loc: "return:0",
 		Subst: map[string]string{"config.GetAddDecimalsHeight()": "adh"}, Vars: []string{"adh"}},
 }
